@@ -74,6 +74,7 @@ func RunCode(code *gojq.Code, v any, budget, maxOuts int, vars ...any) (o Outcom
 				o.Budget = true
 				return
 			}
+			_ = e.Error() // a panic while rendering the error is a panic of the run (recovered above)
 			o.Err = e
 			return
 		}
